@@ -82,6 +82,18 @@ class Batch:
         self.site = site
 
 
+def chain_graphs(ctx, k):
+    """Acyclic reference chains of k links (pure references; structures each holding the next reference)."""
+    out = ctx.path('chain_%d.ndjson' % k)
+    if os.path.exists(out):
+        return out
+    shards = ctx.path('chain_shards.ndjson')
+    open(shards, 'w').write(json.dumps({'shard': 0}) + '\n')
+    files = vlib.run_worker(ctx, 'randgraph', shards, ['-chain', str(k)], shards=1, prefix='chain%d' % k)
+    shutil.copy(files[0], out)
+    return out
+
+
 def random_graphs(ctx, n, docs, count, dangling=False):
     """Seeded random graphs larger than TLC enumerates (same format, judged by the same oracle)."""
     out = ctx.path('rand_n%d_d%d_c%d_%s.ndjson' % (n, docs, count, 'dang' if dangling else 'wf'))
@@ -104,7 +116,10 @@ def observe(ctx, batches):
     """Run the real code over all batches; returns observation files."""
     obsfiles = []
     for i, b in enumerate(batches):
-        cases = random_graphs(ctx, *b.genset[1:]) if b.genset[0] == 'random' else gen(ctx, *b.genset)
+        if b.genset[0] == 'chain':
+            cases = chain_graphs(ctx, b.genset[1])
+        else:
+            cases = random_graphs(ctx, *b.genset[1:]) if b.genset[0] == 'random' else gen(ctx, *b.genset)
         args = ['-layouts', ','.join(b.layouts), '-opts', ','.join(b.opts), '-rots', ','.join(str(r) for r in b.rots),
                 '-names', b.names, '-spell', b.spell, '-reps', str(b.reps), '-failsets', ','.join(b.failsets),
                 '-entry', b.entry, '-caches', b.caches, '-watchdog', b.watchdog]
@@ -114,6 +129,8 @@ def observe(ctx, batches):
             args += ['-idsnamed']
         if getattr(b, 'wholedocs', False):
             args += ['-wholedocs']
+        if getattr(b, 'handbuilt', False):
+            args += ['-handbuilt']
         if b.oddtargets:
             args += ['-oddtargets']
         if b.allfaults:
@@ -284,6 +301,10 @@ def s1_batches(ctx, opts, skip_collide=False):
                 Batch(G_N3_D3_WF, ['samepath+samepathq', 'samepathq+sibling'], opts, rots[:1], reps=1, names=sd['names'], spell=sd['spell']),
                 wholeb(Batch(G_N4_S_WF, ORDINARY, opts, rots[:2], reps=2, names=sd['names'], spell='varied')),
                 wholeb(Batch(G_N3_D3_WF, lay2[:9], opts, rots[:1], reps=1, spell=sd['spell'])),
+                handb(Batch(G_N4_S_WF, ['sibling', 'subdir'], opts, rots, reps=1)),
+                Batch(('chain', 40), ['sibling', 'subdir'], opts, rots[:2], reps=1),
+                Batch(('chain', 120), ['sibling'], opts, rots[:1], reps=1),
+                Batch(('chain', 40), ['sibling'], opts[:1], rots[:1], reps=1, entry='ExpandSchema:typed,ExpandSchemaWithBasePath,ExpandParameterWithRoot'),
                 Batch(G_N3_ALL_WF, ['otherport', 'sibling'], opts, rots[:2], reps=1, site='http', spell='varied')]
     few = [ALL_LAYOUTS[(ctx.seed + i) % len(ALL_LAYOUTS)] for i in (0, 3, 6)]
     other = 'plain' if sd['names'] == 'special' else 'special'
@@ -301,7 +322,12 @@ def s1_batches(ctx, opts, skip_collide=False):
             Batch(G_N3_ALL_WF, ['samepath', 'samepathq'], opts[:1], [sd['rot']], reps=1, names=sd['names'], spell=sd['spell']),
             # documents that ARE a schema, reached by whole-document references ("b1.json", "#")
             wholeb(Batch(G_N4_S_WF, ['sibling', 'subdir'], opts, [sd['rot']], reps=1, names=sd['names'], spell=sd['spell'])),
-            wholeb(Batch(G_N3_ALL_WF, ['parent', 'remote'], opts, [(sd['rot'] + 1) % 12], reps=1, spell='varied'))]
+            wholeb(Batch(G_N3_ALL_WF, ['parent', 'remote'], opts, [(sd['rot'] + 1) % 12], reps=1, spell='varied')),
+            # a model assembled by hand rather than decoded (schema unions without the Allows flag); long acyclic chains
+            handb(Batch(G_N4_S_WF, ['sibling'], opts[:1], [sd['rot'], (sd['rot'] + 3) % 12, (sd['rot'] + 6) % 12], reps=1)),
+            Batch(G_N3_ALL_WF, ['subdir', 'remote'], opts[:1], [sd['rot']], reps=1, names='perdoc', spell='simple'),
+            Batch(('chain', 40), ['sibling'], opts, [sd['rot']], reps=1),
+            Batch(('chain', 40), ['sibling'], opts[:1], [sd['rot']], reps=1, entry='ExpandSchema:typed,ExpandSchemaWithBasePath')]
 
 
 def s1_mc(ctx):
@@ -464,6 +490,11 @@ def wholeb(b):
     return b
 
 
+def handb(b):
+    b.handbuilt = True
+    return b
+
+
 def check_c09(ctx):
     sd = seeded(ctx)
     preds = ['c09keep', 'c09defs', 'c09form', 'c02', 'c09then', 'c03cut']
@@ -480,6 +511,8 @@ def check_c09(ctx):
         batches = [Batch(G_N3_ALL_WF, ALL_LAYOUTS, ['100', '101'], [sd['rot']], reps=1, names=sd['names'], spell=sd['spell']),
                    Batch(G_N3_ALL_WF, ALL_LAYOUTS, ['000'], [sd['rot']], reps=1, names=sd['names'], spell=sd['spell'],
                          entry='SkipThenFull'),
+                   # the same reference text in several documents, meaning another element in each
+                   Batch(G_N3_ALL_WF, ['subdir', 'otherdir', 'sibling'], ['100', '000'], [sd['rot']], reps=1, names='perdoc', spell='simple'),
                    # parameters / responses with nested schemas (4 nodes): every sub-schema keyword, definitions included
                    Batch(G_N4_SP_WF if ctx.seed % 2 else G_N4_SR_WF, ['subdir', 'parent'], ['100'], [sd['rot'], (sd['rot'] + 3) % 12, (sd['rot'] + 6) % 12],
                          reps=1, names=sd['names'], spell=sd['spell'])]
